@@ -270,6 +270,33 @@ def online_case(f, cols, times, nvars, used_only=True, **kw):
     return case
 
 
+OBJ_FIELDS = ['', 'value', 'inner.v']      # how a variable is declared and read: a float / a field of a Msg object / a nested field
+
+
+def gen_obj(rng, nv, force=False):
+    """per variable: '' (a float variable) or the field of harness.msgs.Msg through which the formula reads it"""
+    obj = [rng.choice(OBJ_FIELDS) for _ in range(nv)]
+    if force and not any(obj):
+        obj[rng.randrange(nv)] = rng.choice(OBJ_FIELDS[1:])
+    return obj
+
+
+def with_object_fields(case, obj):
+    """The same impl.py case with the variables i with obj[i] != '' declared as objects of the imported type harness.msgs.Msg
+    ('objvars') and read in the formula through the field obj[i] (xa -> xa.value / xa.inner.v); impl.py wraps the supplied numbers
+    into Msg objects whose fields all hold the number, so the values the specification must return are unchanged, and
+    set_var_io_type() is still called with the NAME OF THE VARIABLE (the head of the identifier)."""
+    import re
+    fields = {fml.VARS[i]: fld for i, fld in enumerate(obj or []) if fld}
+    if not fields:
+        return case
+    case = dict(case)
+    head, sep, body = case['spec'].partition('=')
+    case['spec'] = head + sep + re.sub(r'\b(x[a-e])\b(?!\.)', lambda m: m.group(1) + ('.' + fields[m.group(1)] if m.group(1) in fields else ''), body)
+    case['objvars'] = [v for v in case['vars'] if v in fields]
+    return case
+
+
 def time_column(rng, n, kind):
     if kind == 0:
         return list(range(n))
